@@ -166,8 +166,9 @@ def run(
         r.violated = m.group(1)
     elif re.search(r"Action property (\S+) is violated", r.out):
         r.violated = re.search(r"Action property (\S+) is violated", r.out).group(1)
-    elif "Temporal properties were violated" in r.out:
-        r.violated = "temporal"
+    elif "Temporal properties were violated" in r.out or re.search(r"Temporal property \S+ was violated", r.out):
+        m2 = re.search(r"Temporal property (\S+) was violated", r.out)
+        r.violated = m2.group(1) if m2 else "temporal"
     elif "Deadlock reached" in r.out:
         r.violated = "deadlock"
     elif re.search(r"Assumption .* is false", r.out):
